@@ -30,7 +30,9 @@ public class Math {
     }
 
     public static int length(int i1) {
-        throw new RuntimeException();
+        // bits in the magnitude, as fiSIntLength
+        long x = i1 < 0 ? -(long) i1 : i1;
+        return 64 - Long.numberOfLeadingZeros(x);
     }
 
     public static MultiRecord divide(int i1, int i2) {
